@@ -77,9 +77,10 @@ def ensure_facts(scope='lib', repo=REPO, verbose=True):
         # drop older fact sets of this scope (keep the cache small)
         base = os.path.join(CACHE, 'facts')
         os.makedirs(base, exist_ok=True)
-        for d in os.listdir(base):
-            if d.startswith(scope + '-'):
-                shutil.rmtree(os.path.join(base, d), ignore_errors=True)
+        old = sorted((d for d in os.listdir(base) if d.startswith(scope + '-')),
+                     key=lambda d: os.path.getmtime(os.path.join(base, d)))
+        for d in old[:-3]:
+            shutil.rmtree(os.path.join(base, d), ignore_errors=True)
         os.makedirs(fdir)
         target = os.path.join(CACHE, 'target')
         # cargo's freshness cache would skip the wrapper: forget the workspace members
